@@ -335,7 +335,7 @@ Proof. intros H. destruct fuel; cbn [strip_base]; [reflexivity|]. destruct (Z.eq
 
 (** the digit counting loop of from_parts_const never exceeds the number of digits of the literal *)
 Lemma count_digits_le fuel B dmax m p : 2 <= B -> 0 <= p -> m < B ^ p ->
-  forall pow d, 0 <= d -> pow = B ^ d -> pow <= m -> count_digits fuel B dmax m pow d <= p.
+  forall pow d, 0 <= d -> pow = B ^ d -> pow <= m -> count_digits fuel B dmax m pow (d + 1) <= p.
 Proof.
   intros HB Hp Hm. induction fuel as [|fuel IH]; intros pow d Hd Hpow Hle; cbn [count_digits];
     assert (d < p) by (apply (Z.pow_lt_mono_r_iff B d p); lia).
@@ -377,7 +377,8 @@ Proof.
         pose proof (blen_le_of_lt mag p Hm Hp Hlt). destruct (Z.ltb_spec (blen mag) p); [reflexivity | repeat f_equal; lia].
       * change (is_pow2 10) with false. cbv iota. rewrite strip_base_id by exact Hmod.
         pose proof (count_digits_le (Z.to_nat (2 * wbits)) 10 (2 ^ (2 * wbits) - 1) mag p ltac:(lia) Hp Hlt 1 0 ltac:(lia) eq_refl ltac:(lia)) as Hc.
-        destruct (Z.ltb_spec (count_digits (Z.to_nat (2 * wbits)) 10 (2 ^ (2 * wbits) - 1) mag 1 0) p); [reflexivity | repeat f_equal; lia].
+        change 1 with (0 + 1) in Hc at 2.
+        destruct (Z.ltb_spec (count_digits (Z.to_nat (2 * wbits)) 10 (2 ^ (2 * wbits) - 1) mag 1 1) p); [reflexivity | repeat f_equal; change (0 + 1) with 1 in Hc; lia].
   - assert (Hpos : 0 < mag).
     { destruct (Z.eq_dec mag 0) as [E|E]; [subst; cbn in H32; lia | lia]. }
     destruct (Hn Hpos) as [Hmod Hlt]. destruct static_.
